@@ -12,9 +12,57 @@ import (
 )
 
 type sockOutcome struct {
-	req  string
-	kind string
-	viol []Violation
+	req   string
+	kind  string
+	viol  []Violation
+	cases [][2]string // correspondence cases: op "rrw" request, the frame the terminal received
+}
+
+// rrwAnswer: the k-th 0x8003 frame of a conversation as the answer of op "rrw"
+func rrwAnswer(res *SkResult, k int) (ans string, index int) {
+	n := 0
+	for i, f := range res.Frames {
+		if f.OK && f.ID == 0x8003 {
+			if n == k {
+				return "ok " + Hx(f.Raw), i
+			}
+			n++
+		}
+	}
+	return "none", -1
+}
+
+// rrwBySerial: the first 0x8003 frame whose body names the given original serial
+func rrwBySerial(res *SkResult, serial uint16) (ans string, index int) {
+	for i, f := range res.Frames {
+		if f.OK && f.ID == 0x8003 && len(f.Body) >= 2 && f.Body[0] == byte(serial>>8) && f.Body[1] == byte(serial) {
+			return "ok " + Hx(f.Raw), i
+		}
+	}
+	return "none", -1
+}
+
+func init() {
+	// rrw <platform serial> <k | s<first serial>> <step>...: replays the conversation (real sleeps) and shows the frame
+	RegisterOp("rrw", func(a []string) string {
+		if len(a) < 3 {
+			return "bad-args"
+		}
+		res := SkPlay(SkParseSteps(a[2:]))
+		if res.Crashed {
+			return "crash"
+		}
+		if strings.HasPrefix(a[1], "s") {
+			ser := 0
+			fmt.Sscan(a[1][1:], &ser)
+			ans, _ := rrwBySerial(res, uint16(ser))
+			return ans
+		}
+		k := 0
+		fmt.Sscan(a[1], &k)
+		ans, _ := rrwAnswer(res, k)
+		return ans
+	})
 }
 
 type sockPlan struct {
@@ -24,6 +72,7 @@ type sockPlan struct {
 	reads  []string // canonical prefix "id,serial,sum,no,complete,body,terminaldata," of every OnReadExecutionEvent
 	rr     []expRR  // the re-requests, in order of time
 	nreply int      // number of 0x8001 replies expected (one per read event with a reply)
+	bySerial bool   // the re-requests come from ONE read (map order): compare as a set keyed by the first serial
 }
 
 func canonPlain(f FrameSpec) string {
@@ -41,12 +90,37 @@ func socketScenarios(rng *rand.Rand, quick bool) []sockOutcome {
 		tr := mkTransfer(rng, []uint16{0x0200, 0x0704}[rng.Intn(2)], n, 20)
 		return tr, func(serial uint16) FrameSpec { return SyncFrame(tr.Phone, tr.Ver2019, serial) }
 	}
-	{ // A: one round, then resupply completes
+	{ // A: eight transfers of different ids stall together; one read after 5.1 s must re-request every
+		// one of them (reissuePackChan holds 3: the reader has to wait for the writer, not drop);
+		// then the first transfer is resupplied and completes
 		tr, hb := mk(5)
-		p := sockPlan{kind: "5s-round"}
-		p.steps = []SkStep{w(tr.Packet(1)), w(tr.Packet(3)), w(tr.Packet(5)), y(hb(1)), {Kind: 's', Ms: 5100}, y(hb(2)), w(tr.Packet(4)), w(tr.Packet(2)), y(hb(3))}
-		p.reads = []string{canonPlain(hb(1)), canonPlain(hb(2)), canonComplete(tr.Packet(2), tr.Whole()), canonPlain(hb(3))}
+		p := sockPlan{kind: "5s-round-8-ids", bySerial: true}
+		p.steps = []SkStep{w(tr.Packet(1)), w(tr.Packet(3)), w(tr.Packet(5))}
 		p.rr = []expRR{{id: tr.ID, serial: tr.Serial0, missing: []int{2, 4}, phone: tr.Phone, v2019: tr.Ver2019}}
+		ids := []uint16{0x0801, 0x0805, 0x0800, 0x1205, 0x0104, 0x0100, 0x0102, 0x0200, 0x0704}
+		used := 0
+		for _, id := range ids {
+			if id == tr.ID || used == 7 {
+				continue
+			}
+			used++
+			n := 2 + rng.Intn(5)
+			o := mkTransfer(rng, id, n, 12)
+			o.Phone, o.Ver2019 = tr.Phone, tr.Ver2019
+			o.Serial0 = tr.Serial0 + uint16(100*used) // distinct first serials: they identify the transfer in the 0x8003 body
+			p.steps = append(p.steps, w(o.Packet(1)))
+			var miss []int
+			for q := 2; q <= n; q++ {
+				if q == 2 || rng.Intn(2) == 0 { // packet 2 always missing
+					miss = append(miss, q)
+				} else {
+					p.steps = append(p.steps, w(o.Packet(q)))
+				}
+			}
+			p.rr = append(p.rr, expRR{id: id, serial: o.Serial0, missing: miss, phone: o.Phone, v2019: o.Ver2019})
+		}
+		p.steps = append(p.steps, y(hb(1)), SkStep{Kind: 's', Ms: 5100}, y(hb(2)), w(tr.Packet(4)), w(tr.Packet(2)), y(hb(3)), SkStep{Kind: 's', Ms: 150})
+		p.reads = []string{canonPlain(hb(1)), canonPlain(hb(2)), canonComplete(tr.Packet(2), tr.Whole()), canonPlain(hb(3))}
 		p.nreply = 4
 		plans = append(plans, p)
 	}
@@ -84,6 +158,30 @@ func socketScenarios(rng *rand.Rand, quick bool) []sockOutcome {
 			o.viol = append(o.viol, Violation{Signature: "C14/socket-" + sig, What: what, Input: req, Observed: Trunc(observed, 3000), Required: Trunc(required, 3000)})
 		}
 		res := SkPlay(p.steps)
+		if !res.Crashed && res.Timeout == "" {
+			// the bytes written for every re-request against parser model + writer model: the platform
+			// serial the model is given is the position of the frame among all frames written
+			if p.bySerial {
+				for _, e := range p.rr {
+					ans, idx := rrwBySerial(res, e.serial)
+					if idx < 0 {
+						idx = 0 // the frame is missing: the model still says what should have been written
+					}
+					o.cases = append(o.cases, [2]string{fmt.Sprintf("rrw %d s%d %s", idx, e.serial, SkStepsString(p.steps)), ans})
+				}
+			} else {
+				for k := 0; ; k++ {
+					ans, idx := rrwAnswer(res, k)
+					if idx < 0 {
+						if k >= len(p.rr) {
+							break
+						}
+						idx = 0 // an expected frame is missing: the model still says what should have been written
+					}
+					o.cases = append(o.cases, [2]string{fmt.Sprintf("rrw %d %d %s", idx, k, SkStepsString(p.steps)), ans})
+				}
+			}
+		}
 		switch {
 		case res.Crashed:
 			viol("crash", "the server process died", res.Stderr, "the server survives")
@@ -129,6 +227,20 @@ func socketScenarios(rng *rand.Rand, quick bool) []sockOutcome {
 			bad := false
 			for i, e := range p.rr {
 				f := rrs[i]
+				if p.bySerial {
+					found := false
+					for _, g := range rrs {
+						if len(g.Body) >= 2 && g.Body[0] == byte(e.serial>>8) && g.Body[1] == byte(e.serial) {
+							f, found = g, true
+							break
+						}
+					}
+					if !found {
+						viol("missing", fmt.Sprintf("no re-request on the wire for the stalled transfer of id %04x (first serial %d)", e.id, e.serial), res.String(), descrRR([]expRR{e}))
+						bad = true
+						break
+					}
+				}
 				if f.Attr&(1<<13) != 0 || (f.Attr&(1<<14) != 0) != e.v2019 || !bytes.Equal(f.Phone, e.phone) || !bytes.Equal(f.Body, e.body()) {
 					viol("list", fmt.Sprintf("re-request %d on the wire is not the expected one", i), Hx(f.Raw), descrRR([]expRR{e}))
 					bad = true
